@@ -109,10 +109,6 @@ class VCSStrategyGit(VCSStrategy):
             "--ignored",
             "--others",
             "--directory",
-            # TODO: This flag is unexpected.  I reported it as a bug in Git.
-            # This flag---counter-intuitively---lists untracked directories
-            # that contain ignored files.
-            "--no-empty-directory",
             # Separate output with \0 instead of \n.
             "-z",
         ]
